@@ -7,6 +7,7 @@ package decoder
 import (
 	"context"
 	"encoding/binary"
+	"errors"
 	"fmt"
 	"io"
 	"math"
@@ -375,7 +376,15 @@ func (d *Decoder) Next() bool {
 	if d.n == 0 {
 		return true
 	}
-	return d.decodeFileHeaderOnce() == nil
+	err := d.decodeFileHeaderOnce()
+	if err == nil {
+		return true
+	}
+	// End of input and invalid bytes end the iteration. Any other error is a failure of the
+	// reader itself: report true so that the following Decode returns it (d.err is sticky)
+	// instead of ending the iteration as if the input were complete.
+	return !errors.Is(err, io.EOF) && !errors.Is(err, io.ErrUnexpectedEOF) &&
+		!errors.Is(err, ErrNotFITFile) && !errors.Is(err, ErrCRCChecksumMismatch)
 }
 
 // Decode method decodes `r` into FIT data. One invocation will produce one valid FIT data or
